@@ -89,6 +89,42 @@ REG = {
          "{--config unset/existing/missing} x {HR_CONFIG unset/existing/missing} x --no-database; the binary's effective book, log, date format, "
          "depth and current date are observed through stats, csv log and two depth probes.",
     note="The product of all five settings is replayed by a seeded stride (the per-setting slices are replayed completely). Needs the right to run a child process under another uid (root in this sandbox)."),
+ "C05": dict(
+    level="model_checking", design="5/C05",
+    technique="TLA+ spec Determinism.tla (every map-iteration site: all permutations x ties) and Resolver.tla (every visiting order) checked by TLC; resolver orders forced on the real code; every command shape repeated N times in-process and M times as processes on order-unmasking inputs",
+    text="That the output is a function of the input whatever order the runtime picks is an invariant over all permutations for the site kinds the code uses, and over all visiting "
+         "orders of the resolver (replayed with the order forced); for maps whose order cannot be forced the real commands are run repeatedly and must be byte-identical.",
+    note="Statistical for maps that cannot be forced (miss probability < 0.5 % per site at N = 40, far less at N = 400). How ties are ordered is not judged, only that it is stable."),
+ "C07": dict(
+    level="model_checking", design="5/C07",
+    technique="TLA+ spec Reporters.tla runs all reporters in lock-step over one log with the Agree_* relations as invariants (TLC, exhaustive); every reporter bound to the code by replay; Balance.tla / Resolver.tla / Walk.tla cover the balance, element-total and stats relations; relations also evaluated directly on pairs of real outputs",
+    text="Because each reporter is specified from its own code path and bound to the code by comparing its rows exactly, a relation TLC proves between the specified reports holds between the real ones; "
+         "in addition the relations are evaluated directly on real outputs for random logs over nested books.",
+    note="Bounded universes as in C02 / C03 / C01 / C06; direct relations on integer data (printed figures exact)."),
+ "C12": dict(
+    level="model_checking", design="5/C12",
+    technique="TLA+ spec Reporters.tla: action property DayOutputLocal and invariant PeriodAdditive (TLC, exhaustive); real commands on L1, L2 and the concatenated file for every split of every enumerated history; Day traces of real reporters validated against Trace_Reporters.tla",
+    text="Per-day output is appended chunk by chunk as a function of the current day only (action property over every enumerated history), period accumulators are additive; "
+         "the real commands are run on the parts and on the concatenated file and compared byte for byte / row sum by row sum, and real per-day chunks are validated step by step by TLC.",
+    note="Histories of up to 3 blocks in the exhaustive part (repeated date, empty day, permuted day), up to 8 days in traces."),
+ "C13": dict(
+    level="model_checking", design="5/C13",
+    technique="Reporters.tla CsvRows_Log and Resolver.tla terminal states (TLC, exhaustive) replayed through csv log / csv database / csv database-resolved and read back with an independent strict RFC 4180 reader; half-unit relation on decimal data with exact rationals",
+    text="Row structure (one row per (day, distinct food) in file order; one per entry in file order; sorted by recipe then element) is decided on the specification and compared with the real exports "
+         "read by a hand-written strict RFC 4180 reader; names with commas, quotes, tabs, non-ASCII text; amounts within half a unit of the last digit.",
+    note="The RFC 4180 byte grammar is decided at the binding (strict reader), not in TLA+. A slack of 1e-6 units is allowed for the float64 representation of decimal literals at exact ties."),
+ "C14": dict(
+    level="model_checking", design="5/C14",
+    technique="Lexer.tla PrintFormReadsBack / NoteFixpoint (TLC over every short line); Reporters.tla merged rows as the predicted read-back; every enumerated log printed under 6 date formats and read back with print, csv log and the parser",
+    text="What print writes for any producible name and any documented note lexes back to the same tokens (invariants over all lines up to the bound); on the real commands the printed log "
+         "must be readable under the same options, print again byte-identically, and read back to the merged rows, notes and headings.",
+    note="Notes outside the documented forms (punctuation at the ends) are outside the statement; the model records that they reach a fixpoint after a second parse."),
+ "C15": dict(
+    level="model_checking", design="5/C15",
+    technique="Reporters.tla fixes the records (RegisterExact); the real register is produced under all 54 combinations of template x shorten x totals mode x colour (global / sub-command flag) on every enumerated log with long names and compared record by record; Balance.tla ModesAgreeOnLeaves for the collapse modes",
+    text="Every combination of presentation switches must show the records the specification predicts (shortened names keep a prefix and suffix within the column), coloured output equals plain output "
+         "after removing escape codes with the colour given by the sign, and default = no-totals + totals-only per day.",
+    note="Layout-only differences are below the record abstraction on purpose."),
 }
 
 
@@ -122,7 +158,7 @@ def main():
                                      "replayed into the real code, and traces recorded from the real code validated by TLC against Trace_*.tla")],
         checks=checks,
         notes="See DESIGN.md. KNOWN_FINDINGS.txt lists repaired defects (fixed:) and open findings (finding:).",
-        not_applicable=[dict(property_id=p, reason="check under construction in this session; not yet registered") for p in ALL if p not in REG],
+        not_applicable=[dict(property_id=p, reason="no check registered") for p in ALL if p not in REG],
     )
     with open(os.path.join(VERIF, "MANIFEST.json"), "w") as f:
         json.dump(m, f, indent=1)
